@@ -225,6 +225,43 @@ def _is_substance_line(d, name, subs, depth=0):
     return False
 
 
+def element_symbols(chk, rule="element-symbols"):
+    """Formulas are read through the `!symbol` table.  A symbol attached to the wrong element silently gives wrong molar masses
+    (`!symbol palladium Pa`: `PaO2` was computed with palladium, `PdO2` was unknown).  Every `!symbol <name> <sym>` whose name
+    is a chemical element must carry that element's IUPAC symbol, no symbol may be used twice, and the names the `const`
+    properties of a substance introduce must be the substance's own (`<name>_atomic_number`)."""
+    import json as _json
+    tbl = _json.load(open(os.path.join(facts.VERIF, "tables", "element_symbols.json")))["symbols"]
+    d = defs()
+    bad, n = [], 0
+    seen = {}
+    for x in d:
+        if x["kind"] == "substance" and x.get("symbol"):
+            n += 1
+            if x["symbol"] in seen:
+                bad.append("symbol %s is given to both %s and %s" % (x["symbol"], seen[x["symbol"]], x["name"]))
+            seen[x["symbol"]] = x["name"]
+            want = tbl.get(x["name"])
+            if want is not None and want != x["symbol"]:
+                bad.append("%s has the symbol %s, its element symbol is %s" % (x["name"], x["symbol"], want))
+    chk.decide(not bad, rule, "core/definitions.units", "symbols-match-the-periodic-table", "core/definitions.units",
+               "%d `!symbol` directives; every chemical element carries its IUPAC symbol and no symbol is used twice" % n,
+               "wrong chemical symbols: %s" % "; ".join(bad[:4]))
+    if n < 80:
+        chk.anchor_lost(rule, "core/definitions.units", "only %d `!symbol` directives found" % n)
+    # const property input names: <substance>_<property> (a copy-pasted name makes two substances share a name)
+    wrong = []
+    for x in d:
+        if x["kind"] != "substance" or x["name"] not in tbl:
+            continue
+        for pr in x.get("props", []):
+            if pr.get("name") == "atomic_number" and pr.get("input_name", "").endswith("_atomic_number") and pr["input_name"] != x["name"] + "_atomic_number":
+                wrong.append("%s: %s" % (x["name"], pr["input_name"]))
+    chk.decide(not wrong, rule, "core/definitions.units", "atomic-number-names-are-own", "core/definitions.units",
+               "the atomic_number constant of every element is named after the element itself",
+               "atomic_number constants named after another element: %s" % wrong[:4])
+
+
 def overlay_rebinding(chk, rule="overlay-does-not-rebind"):
     """The currency overlay is loaded after (and separately from) definitions.units, so the values of the base entries
     are already fixed; the recorded definition text of a base entry keeps meaning what it meant only if every identifier
